@@ -301,6 +301,26 @@ func DomConds(b *ssa.BasicBlock) []Cond {
 	var out []Cond
 	for x := b; x != nil; x = x.Idom() {
 		if c, t, ok := EdgeCond(x); ok {
+			// normalise `v == true`, `v != false`, ...
+			for {
+				bo, isB := c.(*ssa.BinOp)
+				if !isB || (bo.Op != token.EQL && bo.Op != token.NEQ) {
+					break
+				}
+				var other ssa.Value
+				var k bool
+				if kb, ok := ConstBool(bo.Y); ok {
+					other, k = bo.X, kb
+				} else if kb, ok := ConstBool(bo.X); ok {
+					other, k = bo.Y, kb
+				} else {
+					break
+				}
+				if (bo.Op == token.EQL) != k {
+					t = !t
+				}
+				c = other
+			}
 			out = append(out, Cond{c, t})
 		}
 	}
@@ -436,4 +456,34 @@ func ConstFold(v ssa.Value) (int64, bool) {
 		}
 	}
 	return 0, false
+}
+
+// RetOperand returns the i-th result of ret, looking through the spill that
+// go/ssa introduces for functions with defers (results are stored to a local
+// and re-loaded after rundefers).
+func RetOperand(ret *ssa.Return, i int) ssa.Value {
+	v := ret.Results[i]
+	ld, ok := v.(*ssa.UnOp)
+	if !ok || ld.Op != token.MUL {
+		return v
+	}
+	al, ok := ld.X.(*ssa.Alloc)
+	if !ok {
+		return v
+	}
+	b := ret.Block()
+	idx := len(b.Instrs) - 1
+	for steps := 0; steps < 8; steps++ {
+		for j := idx; j >= 0; j-- {
+			if st, ok := b.Instrs[j].(*ssa.Store); ok && st.Addr == ssa.Value(al) {
+				return st.Val
+			}
+		}
+		if len(b.Preds) != 1 {
+			return v
+		}
+		b = b.Preds[0]
+		idx = len(b.Instrs) - 1
+	}
+	return v
 }
